@@ -442,7 +442,7 @@ def rec_rule(repo, mir, reach, res, rule="REC"):
         pm = A.parent_map(fn.body)
         a = list(P.find_calls(fn.body, names={"get_nonterminals_resolution_order"}))
         b = list(P.find_calls(fn.body, names={"check_subword_spaces"}))
-        ok = len(a) == 1 and len(b) == 1 and A.before(a[0], b[0]) and pm[id(a[0])][0]["k"] == "Try" and not A.guards_of(a[0], pm)
+        ok = len(a) == 1 and len(b) == 1 and A.before(a[0], b[0]) and A.propagates(a[0], pm) and not A.guards_of(a[0], pm)
         res.check(ok, rule, f"{rule}:cycles-rejected-before-definition-walk", "get_nonterminals_resolution_order(..)? precedes check_subword_spaces(..) and every resolve pass", fn.loc())
     from . import c08
     tmp = type(res)(res.prop)
